@@ -834,3 +834,147 @@ func isUnknownSpec(a predOutcome) predOutcome {
 //@ atcall executeNextItem assert [C16] fresh-base: exec.baseObject.id == exec.lastGeneratedObjectID
 //@ ensures [C16] non-object: !is[map[string]any](value) && !(is[[]any](value) && unwrap) ==> r0 == statusFailed && ncalls(exec.executeNextItem) == 0 && (r1 == nil || errIs(r1, ErrVerbose))
 //@ ensures [C16] empty: is[map[string]any](value) && len(as[map[string]any](value)) == 0 ==> r0 == statusNotFound && r1 == nil && ncalls(exec.executeNextItem) == 0
+
+// ---------------------------------------------------------------------------
+// datetime.go: cast and comparison matrices (C17). The conversions of
+// package types are uninterpreted pure functions here (theory of time
+// assumed); what is proved is which conversion is used, when the time-zone
+// error is raised and that comparison agrees with comparison after the casts.
+
+//@ func tzRequiredCast
+//@ props C17 C08
+//@ ensures [C17 C08] hard: r0 != nil && errIs(r0, ErrExecution) && !errIs(r0, ErrVerbose) && !errIs(r0, ErrInvalid)
+
+//@ func notRecognized
+//@ props C17
+//@ ensures [C17] suppressible: r0 != nil && errIs(r0, ErrVerbose) && errIs(r0, ErrExecution) && !errIs(r0, ErrInvalid)
+
+//@ func unknownDateTime
+//@ props C05
+//@ ensures r0 == 0 && r1 != nil && errIs(r1, ErrInvalid) && !errIs(r1, ErrExecution)
+
+//@ func (*Executor).castDate
+//@ props C17
+//@ ensures [C17] identity: is[*types.Date](timeVal) ==> r1 == nil && r0 == as[*types.Date](timeVal)
+//@ ensures [C17] incompatible: is[*types.Time](timeVal) || is[*types.TimeTZ](timeVal) ==> r0 == nil && r1 != nil && errIs(r1, ErrVerbose)
+//@ ensures [C17] timestamp: is[*types.Timestamp](timeVal) ==> r1 == nil && r0 == as[*types.Timestamp](timeVal).ToDate(ctx)
+//@ ensures [C17] tz-required: is[*types.TimestampTZ](timeVal) && !exec.useTZ ==> r0 == nil && r1 != nil && errIs(r1, ErrExecution) && !errIs(r1, ErrVerbose)
+//@ ensures [C17] tz-cast: is[*types.TimestampTZ](timeVal) && exec.useTZ ==> r1 == nil && r0 == as[*types.TimestampTZ](timeVal).ToDate(ctx)
+//@ ensures [C05] class: r1 != nil ==> errIs(r1, ErrExecution) || errIs(r1, ErrInvalid)
+//@ ensures [C17] nonnil: r1 == nil ==> r0 != nil
+
+//@ func (*Executor).castTime
+//@ props C17
+//@ ensures [C17] identity: is[*types.Time](timeVal) ==> r1 == nil && r0 == as[*types.Time](timeVal)
+//@ ensures [C17] incompatible: is[*types.Date](timeVal) ==> r0 == nil && r1 != nil && errIs(r1, ErrVerbose)
+//@ ensures [C17] timestamp: is[*types.Timestamp](timeVal) ==> r1 == nil && r0 == as[*types.Timestamp](timeVal).ToTime(ctx)
+//@ ensures [C17] tz-required: (is[*types.TimestampTZ](timeVal) || is[*types.TimeTZ](timeVal)) && !exec.useTZ ==> r0 == nil && r1 != nil && errIs(r1, ErrExecution) && !errIs(r1, ErrVerbose)
+//@ ensures [C17] tz-cast-timetz: is[*types.TimeTZ](timeVal) && exec.useTZ ==> r1 == nil && r0 == as[*types.TimeTZ](timeVal).ToTime(ctx)
+//@ ensures [C17] tz-cast-timestamptz: is[*types.TimestampTZ](timeVal) && exec.useTZ ==> r1 == nil && r0 == as[*types.TimestampTZ](timeVal).ToTime(ctx)
+//@ ensures [C05] class: r1 != nil ==> errIs(r1, ErrExecution) || errIs(r1, ErrInvalid)
+//@ ensures [C17] nonnil: r1 == nil ==> r0 != nil
+
+//@ func (*Executor).castTimeTZ
+//@ props C17
+//@ ensures [C17] identity: is[*types.TimeTZ](timeVal) ==> r1 == nil && r0 == as[*types.TimeTZ](timeVal)
+//@ ensures [C17] incompatible: is[*types.Date](timeVal) || is[*types.Timestamp](timeVal) ==> r0 == nil && r1 != nil && errIs(r1, ErrVerbose)
+//@ ensures [C17] tz-required: is[*types.Time](timeVal) && !exec.useTZ ==> r0 == nil && r1 != nil && errIs(r1, ErrExecution) && !errIs(r1, ErrVerbose)
+//@ ensures [C17] tz-cast: is[*types.Time](timeVal) && exec.useTZ ==> r1 == nil && r0 == as[*types.Time](timeVal).ToTimeTZ(ctx)
+//@ ensures [C17] timestamptz: is[*types.TimestampTZ](timeVal) ==> r1 == nil && r0 == as[*types.TimestampTZ](timeVal).ToTimeTZ(ctx)
+//@ ensures [C05] class: r1 != nil ==> errIs(r1, ErrExecution) || errIs(r1, ErrInvalid)
+//@ ensures [C17] nonnil: r1 == nil ==> r0 != nil
+
+//@ func (*Executor).castTimestamp
+//@ props C17
+//@ ensures [C17] identity: is[*types.Timestamp](timeVal) ==> r1 == nil && r0 == as[*types.Timestamp](timeVal)
+//@ ensures [C17] incompatible: is[*types.Time](timeVal) || is[*types.TimeTZ](timeVal) ==> r0 == nil && r1 != nil && errIs(r1, ErrVerbose)
+//@ ensures [C17] date: is[*types.Date](timeVal) ==> r1 == nil && r0 == as[*types.Date](timeVal).ToTimestamp(ctx)
+//@ ensures [C17] tz-required: is[*types.TimestampTZ](timeVal) && !exec.useTZ ==> r0 == nil && r1 != nil && errIs(r1, ErrExecution) && !errIs(r1, ErrVerbose)
+//@ ensures [C17] tz-cast: is[*types.TimestampTZ](timeVal) && exec.useTZ ==> r1 == nil && r0 == as[*types.TimestampTZ](timeVal).ToTimestamp(ctx)
+//@ ensures [C05] class: r1 != nil ==> errIs(r1, ErrExecution) || errIs(r1, ErrInvalid)
+//@ ensures [C17] nonnil: r1 == nil ==> r0 != nil
+
+//@ func (*Executor).castTimestampTZ
+//@ props C17
+//@ ensures [C17] identity: is[*types.TimestampTZ](timeVal) ==> r1 == nil && r0 == as[*types.TimestampTZ](timeVal)
+//@ ensures [C17] incompatible: is[*types.Time](timeVal) || is[*types.TimeTZ](timeVal) ==> r0 == nil && r1 != nil && errIs(r1, ErrVerbose)
+//@ ensures [C17] tz-required: (is[*types.Date](timeVal) || is[*types.Timestamp](timeVal)) && !exec.useTZ ==> r0 == nil && r1 != nil && errIs(r1, ErrExecution) && !errIs(r1, ErrVerbose)
+//@ ensures [C17] tz-cast-date: is[*types.Date](timeVal) && exec.useTZ ==> r1 == nil && r0 == as[*types.Date](timeVal).ToTimestampTZ(ctx)
+//@ ensures [C17] tz-cast-timestamp: is[*types.Timestamp](timeVal) && exec.useTZ ==> r1 == nil && r0 == as[*types.Timestamp](timeVal).ToTimestampTZ(ctx)
+//@ ensures [C05] class: r1 != nil ==> errIs(r1, ErrExecution) || errIs(r1, ErrInvalid)
+//@ ensures [C17] nonnil: r1 == nil ==> r0 != nil
+
+//@ func compareDatetime
+//@ props C17 C12
+//@ ensures [C17] date: is[*types.Date](val1) ==> ncalls(compareDate) == 1 && r0 == callret[int](compareDate, 0) && r1 == callret[error](compareDate, 1) && callarg[any](compareDate, "val2") == val2 && callarg[bool](compareDate, "useTZ") == useTZ
+//@ ensures [C17] time: is[*types.Time](val1) ==> ncalls(compareTime) == 1 && r0 == callret[int](compareTime, 0) && r1 == callret[error](compareTime, 1) && callarg[any](compareTime, "val2") == val2 && callarg[bool](compareTime, "useTZ") == useTZ
+//@ ensures [C17] timetz: is[*types.TimeTZ](val1) ==> ncalls(compareTimeTZ) == 1 && r0 == callret[int](compareTimeTZ, 0) && r1 == callret[error](compareTimeTZ, 1) && callarg[any](compareTimeTZ, "val2") == val2 && callarg[bool](compareTimeTZ, "useTZ") == useTZ
+//@ ensures [C17] timestamp: is[*types.Timestamp](val1) ==> ncalls(compareTimestamp) == 1 && r0 == callret[int](compareTimestamp, 0) && r1 == callret[error](compareTimestamp, 1) && callarg[any](compareTimestamp, "val2") == val2 && callarg[bool](compareTimestamp, "useTZ") == useTZ
+//@ ensures [C17] timestamptz: is[*types.TimestampTZ](val1) ==> ncalls(compareTimestampTZ) == 1 && r0 == callret[int](compareTimestampTZ, 0) && r1 == callret[error](compareTimestampTZ, 1) && callarg[any](compareTimestampTZ, "val2") == val2 && callarg[bool](compareTimestampTZ, "useTZ") == useTZ
+
+//@ ensures [C17] local-coherent-date-timestamptz: is[*types.Date](val1) && is[*types.TimestampTZ](val2) && useTZ ==> r1 == nil && r0 == as[*types.Date](val1).ToTimestampTZ(ctx).Compare(as[*types.TimestampTZ](val2).Time)
+//@ ensures [C17] local-coherent-timestamp-timestamptz: is[*types.Timestamp](val1) && is[*types.TimestampTZ](val2) && useTZ ==> r1 == nil && r0 == as[*types.Timestamp](val1).ToTimestampTZ(ctx).Compare(as[*types.TimestampTZ](val2).Time)
+//@ ensures [C17] local-coherent-timestamptz-date: is[*types.TimestampTZ](val1) && is[*types.Date](val2) && useTZ ==> r1 == nil && r0 == as[*types.TimestampTZ](val1).Compare(as[*types.Date](val2).ToTimestampTZ(ctx).Time)
+//@ ensures [C17] local-coherent-timestamptz-timestamp: is[*types.TimestampTZ](val1) && is[*types.Timestamp](val2) && useTZ ==> r1 == nil && r0 == as[*types.TimestampTZ](val1).Compare(as[*types.Timestamp](val2).ToTimestampTZ(ctx).Time)
+
+//@ func compareDate
+//@ props C17
+//@ ensures [C17] same: is[*types.Date](val2) ==> r1 == nil && r0 == val1.Compare(as[*types.Date](val2).Time)
+//@ ensures [C17] timestamp: is[*types.Timestamp](val2) ==> r1 == nil && r0 == val1.Compare(as[*types.Timestamp](val2).Time)
+//@ ensures [C17] incomparable: is[*types.Time](val2) || is[*types.TimeTZ](val2) ==> r0 == -2 && r1 == nil
+//@ ensures [C17] tz-required: is[*types.TimestampTZ](val2) && !useTZ ==> r1 != nil && errIs(r1, ErrExecution) && !errIs(r1, ErrVerbose)
+//@ ensures [C17] as-coded: is[*types.TimestampTZ](val2) && useTZ ==> r1 == nil
+
+//@ func compareTime
+//@ props C17
+//@ ensures [C17] same: is[*types.Time](val2) ==> r1 == nil && r0 == val1.Compare(as[*types.Time](val2).Time)
+//@ ensures [C17] incomparable: is[*types.Date](val2) || is[*types.Timestamp](val2) || is[*types.TimestampTZ](val2) ==> r0 == -2 && r1 == nil
+//@ ensures [C17] tz-required: is[*types.TimeTZ](val2) && !useTZ ==> r1 != nil && errIs(r1, ErrExecution) && !errIs(r1, ErrVerbose)
+//@ ensures [C17] coherent-with-cast: is[*types.TimeTZ](val2) && useTZ ==> r1 == nil && (r0 == 0) == (as[*types.TimeTZ](val2).Compare(val1.ToTimeTZ(ctx).Time) == 0) && (r0 < 0) == (as[*types.TimeTZ](val2).Compare(val1.ToTimeTZ(ctx).Time) > 0)
+
+//@ func compareTimeTZ
+//@ props C17
+//@ ensures [C17] same: is[*types.TimeTZ](val2) ==> r1 == nil && r0 == val1.Compare(as[*types.TimeTZ](val2).Time)
+//@ ensures [C17] incomparable: is[*types.Date](val2) || is[*types.Timestamp](val2) || is[*types.TimestampTZ](val2) ==> r0 == -2 && r1 == nil
+//@ ensures [C17] tz-required: is[*types.Time](val2) && !useTZ ==> r1 != nil && errIs(r1, ErrExecution) && !errIs(r1, ErrVerbose)
+//@ ensures [C17] coherent-with-cast: is[*types.Time](val2) && useTZ ==> r1 == nil && r0 == val1.Compare(as[*types.Time](val2).ToTimeTZ(ctx).Time)
+
+//@ func compareTimestamp
+//@ props C17
+//@ ensures [C17] same: is[*types.Timestamp](val2) ==> r1 == nil && r0 == val1.Compare(as[*types.Timestamp](val2).Time)
+//@ ensures [C17] date: is[*types.Date](val2) ==> r1 == nil && r0 == val1.Compare(as[*types.Date](val2).Time)
+//@ ensures [C17] incomparable: is[*types.Time](val2) || is[*types.TimeTZ](val2) ==> r0 == -2 && r1 == nil
+//@ ensures [C17] tz-required: is[*types.TimestampTZ](val2) && !useTZ ==> r1 != nil && errIs(r1, ErrExecution) && !errIs(r1, ErrVerbose)
+//@ ensures [C17] as-coded: is[*types.TimestampTZ](val2) && useTZ ==> r1 == nil
+
+//@ func compareTimestampTZ
+//@ props C17
+//@ ensures [C17] same: is[*types.TimestampTZ](val2) ==> r1 == nil && r0 == val1.Compare(as[*types.TimestampTZ](val2).Time)
+//@ ensures [C17] incomparable: is[*types.Time](val2) || is[*types.TimeTZ](val2) ==> r0 == -2 && r1 == nil
+//@ ensures [C17] tz-required: (is[*types.Date](val2) || is[*types.Timestamp](val2)) && !useTZ ==> r1 != nil && errIs(r1, ErrExecution) && !errIs(r1, ErrVerbose)
+//@ ensures [C17] as-coded: (is[*types.Date](val2) || is[*types.Timestamp](val2)) && useTZ ==> r1 == nil
+
+//@ func (*Executor).parseDateTimeFormat
+//@ props C17 C08
+//@ ensures [C17 C08] unsupported-template: r0 != nil && errIs(r0, ErrExecution) && !errIs(r0, ErrVerbose)
+
+//@ func (*Executor).parseDateTime
+//@ props C17
+//@ ensures [C05] class: r1 != nil ==> errIs(r1, ErrExecution) && !errIs(r1, ErrInvalid)
+//@ ensures [C17] no-precision: (op == ast.UnaryDateTime || op == ast.UnaryDate || arg == nil) && r1 == nil ==> ncalls(getNodeInt32) == 0
+//@ ensures [C17] negative-precision: ncalls(getNodeInt32) == 1 && callret[error](getNodeInt32, 1) == nil && callret[int](getNodeInt32, 0) < 0 ==> r1 != nil && errIs(r1, ErrVerbose)
+//@ ensures [C17] nonnil: r1 == nil ==> r0 != nil
+
+//@ func (*Executor).executeDateTimeMethod
+//@ props C17 C08
+//@ requires node.Operator() >= ast.UnaryDateTime
+//@ ensures [C17] non-string: !is[string](value) ==> r0 == statusFailed && (r1 == nil || errIs(r1, ErrVerbose)) && ncalls(exec.executeNextItem) == 0
+//@ ensures [C17 C08] template-unsupported: is[string](value) && node.Operator() == ast.UnaryDateTime && node.Operand() != nil ==> r0 == statusFailed && r1 != nil && !errIs(r1, ErrVerbose) && ncalls(exec.executeNextItem) == 0
+//@ ensures [C17] cast-date: node.Operator() == ast.UnaryDate && ncalls(exec.executeNextItem) == 1 ==> ncalls(exec.castDate) == 1 && callarg[any](exec.executeNextItem, "value") == any(callret[*types.Date](exec.castDate, 0))
+//@ ensures [C17] cast-time: node.Operator() == ast.UnaryTime && ncalls(exec.executeNextItem) == 1 ==> ncalls(exec.castTime) == 1 && callarg[any](exec.executeNextItem, "value") == any(callret[*types.Time](exec.castTime, 0))
+//@ ensures [C17] cast-timetz: node.Operator() == ast.UnaryTimeTZ && ncalls(exec.executeNextItem) == 1 ==> ncalls(exec.castTimeTZ) == 1 && callarg[any](exec.executeNextItem, "value") == any(callret[*types.TimeTZ](exec.castTimeTZ, 0))
+//@ ensures [C17] cast-timestamp: node.Operator() == ast.UnaryTimestamp && ncalls(exec.executeNextItem) == 1 ==> ncalls(exec.castTimestamp) == 1 && callarg[any](exec.executeNextItem, "value") == any(callret[*types.Timestamp](exec.castTimestamp, 0))
+//@ ensures [C17] cast-timestamptz: node.Operator() == ast.UnaryTimestampTZ && ncalls(exec.executeNextItem) == 1 ==> ncalls(exec.castTimestampTZ) == 1 && callarg[any](exec.executeNextItem, "value") == any(callret[*types.TimestampTZ](exec.castTimestampTZ, 0))
+//@ ensures [C17 C08] cast-error: (ncalls(exec.castDate) == 1 && callret[error](exec.castDate, 1) != nil) || (ncalls(exec.castTime) == 1 && callret[error](exec.castTime, 1) != nil) || (ncalls(exec.castTimeTZ) == 1 && callret[error](exec.castTimeTZ, 1) != nil) || (ncalls(exec.castTimestamp) == 1 && callret[error](exec.castTimestamp, 1) != nil) || (ncalls(exec.castTimestampTZ) == 1 && callret[error](exec.castTimestampTZ, 1) != nil) ==> r0 == statusFailed && ncalls(exec.executeNextItem) == 0
+//@ ensures [C17] datetime-most-specific: node.Operator() == ast.UnaryDateTime && ncalls(exec.executeNextItem) == 1 ==> ncalls(exec.parseDateTime) == 1 && callarg[any](exec.executeNextItem, "value") == any(callret[types.DateTime](exec.parseDateTime, 0))
+//@ ensures [C05] never-invalid: errIs(r1, ErrInvalid) ==> pendingErr() == r1
